@@ -277,6 +277,10 @@ func (a *AddExp) Eval(env Env) (Exp, bool) {
 			// 先行する項があった場合にのみ演算子を追加します
 			if len(newTerms) > 0 { // 最初の項でない場合に演算子を追加します
 				newOps = append(newOps, op)
+			} else if op == "-" {
+				// 最初の非定数項が減算される場合 (例: 8-X)、符号を失わないように 0 - X として保持します
+				newTerms = append(newTerms, NewNumberExp(ImmExp{BaseExp: a.BaseExp}, 0))
+				newOps = append(newOps, op)
 			}
 			newTerms = append(newTerms, evalTail)
 		}
